@@ -42,8 +42,19 @@ finally:
     run(f"git -C /repo worktree remove --force {wt}")
 d = os.path.join(verif, "seeded", name)
 os.makedirs(d, exist_ok=True)
-shutil.copy(patch, os.path.join(d, "patch.diff"))
-shutil.copy(demo, os.path.join(d, "demo.py"))
+if os.path.abspath(patch) != os.path.join(d, "patch.diff"):
+    shutil.copy(patch, os.path.join(d, "patch.diff"))
+    shutil.copy(demo, os.path.join(d, "demo.py"))
+old = os.path.join(d, "meta.json")
+if os.path.exists(old):
+    prev = json.load(open(old))
+    if not meta.get("notes"):
+        meta["notes"] = prev.get("notes", "")
+    if "baseline_with_change" not in meta and "baseline_with_change" in prev:
+        meta["baseline_with_change"] = prev["baseline_with_change"]
+    hist = prev.get("history", [])
+    hist.append({"repo_head": prev.get("repo_head"), "checks": {c: v.get("caught") for c, v in prev.get("checks", {}).items()}})
+    meta["history"] = hist
 meta["confirmed"] = bool(meta.get("applies") and meta["demo_clean"]["exit"] == 0 and meta.get("demo_changed", {}).get("exit") not in (0, None)
                          and (no_base or "missing=0" in meta.get("baseline_with_change", "")))
 meta["ran"] = [f"PYTHONPATH=<worktree> /venv/bin/python demo.py (clean, then with patch)", "tools/baseline_check.py <worktree>",
